@@ -56,6 +56,28 @@ class _ChainMapPretendDict(ChainMap, dict):  # type: ignore
         dict.__setitem__(self, '__builtins__', builtins.__dict__)
         super().__init__(*maps)
 
+    def __missing__(self, key):
+        """Look in the dict instance itself when none of the maps has key.
+
+        Code running in a nested scope of an eval/exec (a comprehension,
+        lambda or function body) stores its global names straight into the
+        dict instance, by-passing the ChainMap. Without this it can't read
+        back what it just stored itself.
+        """
+        # dict.get, because dict.__getitem__ would come right back here.
+        value = dict.get(self, key, self)
+        if value is self:
+            raise KeyError(key)
+        return value
+
+    def clear_own(self):
+        """Drop everything in the dict instance itself, except builtins.
+
+        Does not touch the maps.
+        """
+        for key in [k for k in dict.keys(self) if k != '__builtins__']:
+            dict.__delitem__(self, key)
+
 
 class ImportVisitor(ast.NodeVisitor):
     """Parse python import and import from syntax.
